@@ -3,7 +3,7 @@ import fcntl, glob, hashlib, importlib, json, os, shutil, subprocess, sys, time,
 
 VERIF = os.path.dirname(os.path.dirname(os.path.abspath(__file__)))
 REPO = os.environ.get('QV_REPO', '/repo')
-CACHE = os.path.join(VERIF, '.cache')
+CACHE = os.environ.get('QV_CACHE') or os.path.join(VERIF, '.cache')   # QV_CACHE: private cache for parallel mutant work
 DRIVER = os.path.join(VERIF, 'driver', 'target', 'release', 'qvfacts')
 ENGINE_VERSION = 'engine-3'
 PACKAGES = ['-p', 'quinn-proto', '-p', 'quinn', '-p', 'quinn-udp']
